@@ -1,5 +1,9 @@
-(* Strconv/AFProofs.v — AppendFloat (float.go): the literal written after mant := int64(f) is well formed and
-   carries the right sign, for every mantissa and every adjusted precision. *)
+(* Strconv/AFProofs.v — AppendFloat (float.go): the literal written after mant := int64(f) is well formed, carries
+   the right sign and (with AFLitProofs.v) denotes mant * 10^-prec, for every mantissa and every adjusted precision.
+   Method: the layout is run on canonical mantissas with the digit cells holding position tags (af_print_g tag_enc);
+   a lockstep argument (this file) shows that the code's output for any mantissa of the same shape is that tagged
+   output with every tag replaced by the digit at that position; the tagged outputs are checked by computation
+   (AFCheck1..4.v) against an explicit form whose meaning is proved in AFLitProofs.v. *)
 From Coq Require Import ZifyBool Floats.SpecFloat.
 From Verif Require Import Common.Base Common.Tactics Strconv.Model Strconv.FModel Strconv.IntProofs Gen.Tables.
 
@@ -35,33 +39,107 @@ Definition float_lit_b (neg : bool) (out : list Z) : bool :=
   | [] => false
   end.
 
+
 (* the canonical mantissa with L digits of which the last z are zeros: 1..10..0 *)
 Definition canon_mant (L z : Z) : Z := (10 ^ (L - z) - 1) / 9 * 10 ^ z.
 
 Definition markers : list Z := repeat 1000 64.
-Definition no_marker (l : list Z) : bool := forallb (fun c => c <? 1000) l.
+(* what the tagged run may leave in its result: bytes, or tags 2000 + t *)
+Definition no_marker (l : list Z) : bool := forallb (fun c => (c <? 1000) || (2000 <=? c)) l.
 
-Definition af_check_one (neg : bool) (L z prec : Z) : bool :=
-  match af_print [] markers neg (canon_mant L z) prec with
-  | Ok out => no_marker out && float_lit_b neg out
-  | _ => false
-  end.
+(* ---- the conversion loop with the encoding of the digit cells as a parameter ---------------------------------- *)
 
-(* the finite check, per range of mantissa lengths (split over AFCheck1..4.v so that they compile in parallel) *)
-Definition af_check_range (Llo Lhi : Z) : bool :=
-  forallb (fun L => forallb (fun z => forallb (fun prec =>
-     af_check_one false L z prec && af_check_one true L z prec) (zrange (-350) 350)) (zrange 0 (L - 1))) (zrange Llo Lhi).
+(* the part of an iteration between the dot and the digit store *)
+Definition af_mid (s1 : afst) (digit : Z) : afst :=
+  if af_zero s1 && (0 <? digit) then
+    let s' :=
+      if af_dot s1 <? af_j s1 then
+        let i := af_j s1 + 1 in
+        if af_exp s1 <? 0 then
+          let newExp := af_exp s1 - (af_j s1 - af_dot s1) in
+          if len_int newExp =? len_int (af_exp s1) then
+            mkAf (af_b s1) (i - 1) (af_j s1 - 1) (af_last s1) (af_j s1) newExp (af_zero s1)
+          else mkAf (af_b s1) i (af_j s1) (af_last s1) (af_dot s1) (af_exp s1) (af_zero s1)
+        else mkAf (af_b s1) i (af_j s1) (af_last s1) (af_dot s1) (af_exp s1) (af_zero s1)
+      else mkAf (af_b s1) (af_dot s1) (af_j s1) (af_last s1) (af_dot s1) (af_exp s1) (af_zero s1) in
+    mkAf (af_b s') (af_i s') (af_j s') (af_j s') (af_dot s') (af_exp s') false
+  else s1.
+
+(* af_loop, storing [enc fu digit] for the digit produced when fu iterations of fuel remain: the code's bytes for
+   std_enc; for tag_enc the tag 2000 + t of the t-th digit from the right (fuel 20 at the start) *)
+Fixpoint af_loop_g (enc : nat -> Z -> Z) (fuel : nat) (s : afst) (mant : Z) : res afst :=
+  if 0 <? mant then
+    match fuel with
+    | O => NoFuel
+    | S fu =>
+        s1 <-- (if af_j s =? af_dot s then
+                  b' <-- store (af_b s) (af_j s) 46 ;;
+                  Ok (mkAf b' (af_i s) (af_j s - 1) (af_last s) (af_dot s) (af_exp s) (af_zero s))
+                else Ok s) ;;
+        let newMant := Z.quot mant 10 in
+        let digit := mant - 10 * newMant in
+        let s2 := af_mid s1 digit in
+        b' <-- store (af_b s2) (af_j s2) (enc fu digit) ;;
+        af_loop_g enc fu (mkAf b' (af_i s2) (af_j s2 - 1) (af_last s2) (af_dot s2) (af_exp s2) (af_zero s2)) newMant
+    end
+  else Ok s.
+
+Definition std_enc (fu : nat) (d : Z) : Z := byte (48 + byte d).
+Definition tag_enc (fu : nat) (d : Z) : Z := 2000 + (19 - Z.of_nat fu).
+
+Lemma af_loop_std fuel : forall s mant, af_loop fuel s mant = af_loop_g std_enc fuel s mant.
+Proof.
+  induction fuel as [|fu IH]; intros s mant; [reflexivity|].
+  cbn [af_loop af_loop_g]. destruct (0 <? mant); [|reflexivity].
+  destruct (if af_j s =? af_dot s then _ else _) as [s1| |]; cbn [rbind]; try reflexivity.
+  cbv zeta. fold (af_mid s1 (mant - 10 * Z.quot mant 10)). unfold std_enc.
+  destruct (store _ _ _); cbn [rbind]; try reflexivity. apply IH.
+Qed.
+
+Lemma af_loop_g_S enc fu s mant :
+  af_loop_g enc (S fu) s mant =
+  if 0 <? mant then
+    s1 <-- (if af_j s =? af_dot s then
+              b' <-- store (af_b s) (af_j s) 46 ;;
+              Ok (mkAf b' (af_i s) (af_j s - 1) (af_last s) (af_dot s) (af_exp s) (af_zero s))
+            else Ok s) ;;
+    let newMant := Z.quot mant 10 in
+    let digit := mant - 10 * newMant in
+    let s2 := af_mid s1 digit in
+    b' <-- store (af_b s2) (af_j s2) (enc fu digit) ;;
+    af_loop_g enc fu (mkAf b' (af_i s2) (af_j s2 - 1) (af_last s2) (af_dot s2) (af_exp s2) (af_zero s2)) newMant
+  else Ok s.
+Proof. reflexivity. Qed.
+
+(* the digit of weight 10^t, and the byte a cell of the tagged run stands for *)
+Definition dig (M t : Z) : Z := (M / 10 ^ t) mod 10.
+Definition subst (M c : Z) : Z := if 2000 <=? c then 48 + dig M (c - 2000) else c.
+
+Lemma dig_range M t : 0 <= dig M t <= 9.
+Proof. unfold dig. pose proof (Z.mod_pos_bound (M / 10 ^ t) 10 ltac:(lia)). lia. Qed.
+
+Lemma byte_lt x : 0 <= byte x < 1000.
+Proof. unfold byte. pose proof (Z.mod_pos_bound x 256 ltac:(lia)). lia. Qed.
+
+Lemma quot_div_nonneg m : 0 <= m -> Z.quot m 10 = m / 10 /\ m - 10 * Z.quot m 10 = m mod 10.
+Proof.
+  intros H. rewrite Z.quot_div_nonneg by lia. split; [reflexivity|]. pose proof (Z.div_mod m 10 ltac:(lia)). lia.
+Qed.
 
 (* ---- lockstep: the layout does not depend on which digits the mantissa has ------------------------------------ *)
 
-(* same byte, or both digit characters *)
-Definition vrel (x y : Z) : Prop := x = y \/ (is_digit x = true /\ is_digit y = true).
+Section Lockstep.
+Variable M : Z.
+
+(* the left cell is the byte the right cell (a byte or a tag) stands for *)
+Definition trel (x y : Z) : Prop := (y < 1000 \/ 2000 <= y) /\ x = subst M y.
 (* ... or the right-hand cell is still an unwritten marker *)
-Definition mrel (x y : Z) : Prop := vrel x y \/ 1000 <= y.
+Definition mrel (x y : Z) : Prop := trel x y \/ 1000 <= y < 2000.
 (* left buffer = pre ++ X with X cell-wise related to the right buffer *)
 Definition brel (pre B X0 : list Z) : Prop := exists X, B = pre ++ X /\ Forall2 mrel X X0.
 
-Lemma vrel_refl x : vrel x x. Proof. left. reflexivity. Qed.
+Lemma trel_const c : c < 1000 -> trel c c.
+Proof. intros H. unfold trel, subst. split; [lia|]. replace (2000 <=? c) with false by lia. reflexivity. Qed.
 
 Lemma setz_cons x t i v : 0 <= i -> setz (x :: t) i v = if i =? 0 then v :: t else x :: setz t (i - 1) v.
 Proof.
@@ -93,7 +171,7 @@ Proof.
   rewrite IH. reflexivity.
 Qed.
 
-Lemma store_rel pre B X0 i v v0 X0' : brel pre B X0 -> vrel v v0 -> store X0 i v0 = Ok X0' ->
+Lemma store_rel pre B X0 i v v0 X0' : brel pre B X0 -> trel v v0 -> store X0 i v0 = Ok X0' ->
   exists B', store B (i + len pre) v = Ok B' /\ brel pre B' X0'.
 Proof.
   intros (X & -> & HX) Hv Hs. unfold store in *. pose proof (Forall2_len _ _ HX) as Hl.
@@ -179,37 +257,6 @@ Fixpoint sim (fuel : nat) (zero : bool) (m m0 : Z) : Prop :=
       sim f (if zero && (0 <? d) then false else zero) (Z.quot m 10) (Z.quot m0 10)
   end.
 
-(* the part of an iteration between the dot and the digit store *)
-Definition af_mid (s1 : afst) (digit : Z) : afst :=
-  if af_zero s1 && (0 <? digit) then
-    let s' :=
-      if af_dot s1 <? af_j s1 then
-        let i := af_j s1 + 1 in
-        if af_exp s1 <? 0 then
-          let newExp := af_exp s1 - (af_j s1 - af_dot s1) in
-          if len_int newExp =? len_int (af_exp s1) then
-            mkAf (af_b s1) (i - 1) (af_j s1 - 1) (af_last s1) (af_j s1) newExp (af_zero s1)
-          else mkAf (af_b s1) i (af_j s1) (af_last s1) (af_dot s1) (af_exp s1) (af_zero s1)
-        else mkAf (af_b s1) i (af_j s1) (af_last s1) (af_dot s1) (af_exp s1) (af_zero s1)
-      else mkAf (af_b s1) (af_dot s1) (af_j s1) (af_last s1) (af_dot s1) (af_exp s1) (af_zero s1) in
-    mkAf (af_b s') (af_i s') (af_j s') (af_j s') (af_dot s') (af_exp s') false
-  else s1.
-
-Lemma af_loop_S fu s mant :
-  af_loop (S fu) s mant =
-  if 0 <? mant then
-    s1 <-- (if af_j s =? af_dot s then
-              b' <-- store (af_b s) (af_j s) 46 ;;
-              Ok (mkAf b' (af_i s) (af_j s - 1) (af_last s) (af_dot s) (af_exp s) (af_zero s))
-            else Ok s) ;;
-    let newMant := Z.quot mant 10 in
-    let digit := mant - 10 * newMant in
-    let s2 := af_mid s1 digit in
-    b' <-- store (af_b s2) (af_j s2) (byte (48 + byte digit)) ;;
-    af_loop fu (mkAf b' (af_i s2) (af_j s2 - 1) (af_last s2) (af_dot s2) (af_exp s2) (af_zero s2)) newMant
-  else Ok s.
-Proof. reflexivity. Qed.
-
 Lemma af_mid_rel pre s1 s10 d d0 : srel pre s1 s10 -> (af_zero s10 = true -> (0 <? d) = (0 <? d0)) ->
   srel pre (af_mid s1 d) (af_mid s10 d0) /\
   af_zero (af_mid s10 d0) = (if af_zero s10 && (0 <? d) then false else af_zero s10).
@@ -235,12 +282,13 @@ Proof.
 Qed.
 
 Lemma af_loop_rel pre fuel : forall s s0 m m0 s0', srel pre s s0 -> sim fuel (af_zero s0) m m0 ->
-  af_loop fuel s0 m0 = Ok s0' -> exists s', af_loop fuel s m = Ok s' /\ srel pre s' s0'.
+  Z.of_nat fuel <= 20 -> 0 <= M -> m = M / 10 ^ (20 - Z.of_nat fuel) ->
+  af_loop_g tag_enc fuel s0 m0 = Ok s0' -> exists s', af_loop_g std_enc fuel s m = Ok s' /\ srel pre s' s0'.
 Proof.
-  induction fuel as [|fu IH]; intros s s0 m m0 s0' Hs Hsim Hr.
-  - cbn [af_loop sim] in *. destruct Hsim as [Hpos _]. rewrite Hpos.
+  induction fuel as [|fu IH]; intros s s0 m m0 s0' Hs Hsim Hfu HM Hm Hr.
+  - cbn [af_loop_g sim] in *. destruct Hsim as [Hpos _]. rewrite Hpos.
     destruct (0 <? m0); [discriminate|]. inversion Hr; subst. eauto.
-  - rewrite af_loop_S in *. destruct Hsim as [Hpos Hstep]. rewrite Hpos.
+  - rewrite af_loop_g_S in *. destruct Hsim as [Hpos Hstep]. rewrite Hpos.
     destruct (0 <? m0) eqn:Em0; [|inversion Hr; subst; eauto].
     cbv zeta in Hstep. destruct (Hstep ltac:(lia)) as (Hd & Hd0 & Hdz & Hnext). clear Hstep.
     pose proof Hs as (Hb & Hi & Hj & Hl & Hdot & He & Hz).
@@ -254,7 +302,7 @@ Proof.
                   else Ok s) = Ok s1 /\ srel pre s1 s10 /\ af_zero s10 = af_zero s0).
     { intros s10 H1. destruct (af_j s0 =? af_dot s0).
       - destruct (store (af_b s0) (af_j s0) 46) as [b0'| |] eqn:Est; try discriminate. cbn [rbind] in H1. inversion H1; subst s10.
-        destruct (store_rel pre _ _ _ 46 46 _ Hb (vrel_refl 46) Est) as (B' & HB' & Hrel).
+        destruct (store_rel pre _ _ _ 46 46 _ Hb (trel_const 46 ltac:(lia)) Est) as (B' & HB' & Hrel).
         rewrite Hj, HB'. cbn [rbind]. eexists. split; [reflexivity|]. split; [|reflexivity].
         repeat split; cbn [af_b af_i af_j af_last af_dot af_exp af_zero]; try assumption; lia.
       - inversion H1; subst. eexists. split; [reflexivity|]. split; [exact Hs|reflexivity]. }
@@ -263,15 +311,22 @@ Proof.
     set (d := m - 10 * Z.quot m 10) in *. set (d0 := m0 - 10 * Z.quot m0 10) in *.
     destruct (af_mid_rel pre s1 s10 d d0 Hs1rel ltac:(rewrite Hz10; exact Hdz)) as (Hmid & Hzmid).
     set (s2 := af_mid s1 d) in *. set (s20 := af_mid s10 d0) in *.
-    destruct (store (af_b s20) (af_j s20) (byte (48 + byte d0))) as [b0'| |] eqn:Est; try discriminate. cbn [rbind] in Hr.
-    destruct (digit_char d Hd) as [Hc1 Hc2]. destruct (digit_char d0 Hd0) as [Hc01 Hc02].
+    destruct (store (af_b s20) (af_j s20) (tag_enc fu d0)) as [b0'| |] eqn:Est; try discriminate. cbn [rbind] in Hr.
+    destruct (digit_char d Hd) as [Hc1 Hc2].
     destruct Hmid as (Hb2 & Hi2 & Hj2 & Hl2 & Hdot2 & He2 & Hz2).
-    assert (Hvr : vrel (byte (48 + byte d)) (byte (48 + byte d0))) by (right; rewrite Hc1, Hc01; split; assumption).
+    assert (Hm0 : 0 <= m) by (rewrite Hm; apply Z.div_pos; [exact HM|apply Z.pow_pos_nonneg; lia]).
+    destruct (quot_div_nonneg m Hm0) as [Hq Hdm].
+    assert (Hvr : trel (std_enc fu d) (tag_enc fu d0)).
+    { unfold trel, std_enc, tag_enc, subst. split; [lia|]. replace (2000 <=? 2000 + (19 - Z.of_nat fu)) with true by lia.
+      rewrite Hc1. f_equal. unfold d, dig. rewrite Hdm, Hm. f_equal. f_equal. f_equal. lia. }
     destruct (store_rel pre _ _ _ _ _ _ Hb2 Hvr Est) as (B' & HB' & Hrel).
     rewrite Hj2, HB'. cbn [rbind].
-    eapply IH; [| |exact Hr].
+    eapply IH; [| | |exact HM| |exact Hr].
     + repeat split; cbn [af_b af_i af_j af_last af_dot af_exp af_zero]; try assumption; lia.
     + cbn [af_zero]. rewrite Hzmid, Hz10. exact Hnext.
+    + lia.
+    + rewrite Hq, Hm. rewrite Z.div_div by (try lia; apply Z.pow_nonzero; lia).
+      f_equal. replace (20 - Z.of_nat fu) with (Z.succ (20 - Z.of_nat (S fu))) by lia. rewrite Z.pow_succ_r by lia. ring.
 Qed.
 
 (* ---- the other writers ---------------------------------------------------------------------------------------------- *)
@@ -282,7 +337,7 @@ Proof.
   induction k as [|k IH]; intros B X0 j r0 Hb Hr; cbn [af_zeros] in *.
   - inversion Hr; subst. cbn [fst snd]. eauto.
   - destruct (store X0 j 48) as [X1| |] eqn:Est; try discriminate. cbn [rbind] in Hr.
-    destruct (store_rel pre B X0 j 48 48 X1 Hb (vrel_refl 48) Est) as (B1 & HB1 & Hb1). rewrite HB1. cbn [rbind].
+    destruct (store_rel pre B X0 j 48 48 X1 Hb (trel_const 48 ltac:(lia)) Est) as (B1 & HB1 & Hb1). rewrite HB1. cbn [rbind].
     replace (j + len pre - 1) with (j - 1 + len pre) by lia. eapply IH; eassumption.
 Qed.
 
@@ -293,7 +348,7 @@ Proof.
   - destruct (0 <? e); [discriminate|]. inversion Hr; subst. eauto.
   - destruct (0 <? e); [|inversion Hr; subst; eauto]. cbv zeta in *.
     destruct (store X0 (j - 1) (byte (48 + byte (e - 10 * Z.quot e 10)))) as [X1| |] eqn:Est; try discriminate. cbn [rbind] in Hr.
-    destruct (store_rel pre B X0 (j - 1) _ _ X1 Hb (vrel_refl _) Est) as (B1 & HB1 & Hb1).
+    destruct (store_rel pre B X0 (j - 1) _ _ X1 Hb (trel_const _ (proj2 (byte_lt _))) Est) as (B1 & HB1 & Hb1).
     replace (j + len pre - 1) with (j - 1 + len pre) by lia. rewrite HB1. cbn [rbind]. eapply IH; eassumption.
 Qed.
 
@@ -308,7 +363,7 @@ Qed.
 
 Lemma markers_len : len markers = 64. Proof. reflexivity. Qed.
 
-Lemma Forall2_marker (X X0 : list Z) : len X = len X0 -> Forall (fun y => 1000 <= y) X0 -> Forall2 mrel X X0.
+Lemma Forall2_marker (X X0 : list Z) : len X = len X0 -> Forall (fun y => 1000 <= y < 2000) X0 -> Forall2 mrel X X0.
 Proof.
   revert X0. induction X as [|x X IH]; intros X0 Hl Hm.
   - destruct X0; [constructor|]. rewrite len_cons in Hl. pose proof (len_nonneg X0). change (len (@nil Z)) with 0 in Hl. lia.
@@ -377,6 +432,15 @@ Definition af_body (b1 : list Z) (i0 : Z) (neg : bool) (mant prec mantLen exp : 
   s3 <-- af_post s ;;
   af_tail s3 i.
 
+Definition af_body_g (enc : nat -> Z -> Z) (b1 : list Z) (i0 : Z) (neg : bool) (mant prec mantLen exp : Z) : res (list Z) :=
+  bi <-- (if neg then b2 <-- store b1 i0 45 ;; Ok (b2, i0 + 1) else Ok (b1, i0)) ;;
+  let i := snd bi in
+  let last := i + mantLen in
+  let dot := last - prec - exp in
+  s <-- af_loop_g enc 20 (mkAf (fst bi) i last last dot exp true) mant ;;
+  s3 <-- af_post s ;;
+  af_tail s3 i.
+
 Definition af_exp0 (mantLen0 prec : Z) : Z :=
   let mantExp := mantLen0 - prec - 1 in
   if 0 <? mantExp then (if prec <? 0 then mantExp else 0) else if mantExp <? -3 then mantExp else 0.
@@ -398,6 +462,18 @@ Lemma af_print_unfold b spare neg mant prec :
        af_body b1 (len b) neg mant prec (af_mantlen (len_int mant) prec) (af_exp0 (len_int mant) prec).
 Proof. reflexivity. Qed.
 
+(* af_print with the encoding of the digit cells as a parameter; the code's is std_enc *)
+Definition af_print_g (enc : nat -> Z -> Z) (b spare : list Z) (neg : bool) (mant prec : Z) : res (list Z) :=
+  if mant =? 0 then Ok (b ++ [48])
+  else b1 <-- grow b spare (af_maxlen neg (len_int mant) prec) ;;
+       af_body_g enc b1 (len b) neg mant prec (af_mantlen (len_int mant) prec) (af_exp0 (len_int mant) prec).
+
+Lemma af_print_std b spare neg mant prec : af_print b spare neg mant prec = af_print_g std_enc b spare neg mant prec.
+Proof.
+  rewrite af_print_unfold. unfold af_print_g. destruct (mant =? 0); [reflexivity|].
+  destruct (grow _ _ _) as [b1| |]; cbn [rbind]; try reflexivity.
+Qed.
+
 Ltac srel_solve := repeat split; cbn [af_b af_i af_j af_last af_dot af_exp af_zero]; try assumption; try congruence; lia.
 
 Lemma af_post_rel pre s s0 s30 : srel pre s s0 -> af_post s0 = Ok s30 ->
@@ -413,18 +489,18 @@ Proof.
     destruct (af_zeros_rel pre _ _ _ _ _ Hb Ez) as (B' & HB' & Hb').
     rewrite Hj, HB'. cbn [rbind fst snd].
     destruct (store (fst r0) (snd r0) 46) as [X1| |] eqn:Est; try discriminate. cbn [rbind] in Hr. inversion Hr; subst s30.
-    destruct (store_rel pre B' (fst r0) (snd r0) 46 46 X1 Hb' (vrel_refl 46) Est) as (B1 & HB1 & Hb1).
+    destruct (store_rel pre B' (fst r0) (snd r0) 46 46 X1 Hb' (trel_const 46 ltac:(lia)) Est) as (B1 & HB1 & Hb1).
     rewrite HB1. cbn [rbind]. eexists. split; [reflexivity|]. srel_solve.
   - destruct (af_last s0 + 3 <? af_dot s0).
     + inversion Hr; subst s30. eexists. split; [reflexivity|]. srel_solve.
     + destruct (af_j s0 =? af_dot s0).
       * destruct (store (af_b s0) (af_j s0) 46) as [X1| |] eqn:Est; try discriminate. cbn [rbind] in Hr. inversion Hr; subst s30.
-        destruct (store_rel pre _ _ _ 46 46 X1 Hb (vrel_refl 46) Est) as (B1 & HB1 & Hb1).
+        destruct (store_rel pre _ _ _ 46 46 X1 Hb (trel_const 46 ltac:(lia)) Est) as (B1 & HB1 & Hb1).
         rewrite Hj, HB1. cbn [rbind]. eexists. split; [reflexivity|]. srel_solve.
       * inversion Hr; subst s30. eexists. split; [reflexivity|exact Hs].
 Qed.
 
-Lemma no_marker_firstz_cell X0 k idx c0 : peekz X0 idx = Some c0 -> idx < k -> 1000 <= c0 ->
+Lemma no_marker_firstz_cell X0 k idx c0 : peekz X0 idx = Some c0 -> idx < k -> 1000 <= c0 < 2000 ->
   no_marker (firstz k X0) = false.
 Proof.
   intros Hp Hk Hc. pose proof (peekz_some _ _ _ Hp) as Hr.
@@ -480,7 +556,7 @@ Proof.
   2:{ apply (reslice_rel pre _ _ _ _ Hb Hr). }
   destruct (e =? 1).
   { destruct (store (af_b s30) i 48) as [X1| |] eqn:Est; try discriminate. cbn [rbind] in Hr.
-    destruct (store_rel pre _ _ _ 48 48 X1 Hb (vrel_refl 48) Est) as (B1 & HB1 & Hb1). rewrite HB1. cbn [rbind].
+    destruct (store_rel pre _ _ _ 48 48 X1 Hb (trel_const 48 ltac:(lia)) Est) as (B1 & HB1 & Hb1). rewrite HB1. cbn [rbind].
     replace (i + len pre + 1) with (i + 1 + len pre) by lia. apply (reslice_rel pre _ _ _ _ Hb1 Hr). }
   destruct (e =? 2).
   { replace (first0 + len pre + 3 <=? i + len pre) with (first0 + 3 <=? i) by lia.
@@ -491,9 +567,9 @@ Proof.
                               /\ Forall2 mrel out out0').
     { intros out0' H. destruct (store (af_b s30) i 48) as [X1| |] eqn:Est; try discriminate. cbn [rbind] in H.
       destruct (store X1 (i + 1) 48) as [X2| |] eqn:Est2; try discriminate. cbn [rbind] in H.
-      destruct (store_rel pre _ _ _ 48 48 X1 Hb (vrel_refl 48) Est) as (B1 & HB1 & Hb1). rewrite HB1. cbn [rbind].
+      destruct (store_rel pre _ _ _ 48 48 X1 Hb (trel_const 48 ltac:(lia)) Est) as (B1 & HB1 & Hb1). rewrite HB1. cbn [rbind].
       replace (i + len pre + 1) with (i + 1 + len pre) by lia.
-      destruct (store_rel pre _ _ _ 48 48 X2 Hb1 (vrel_refl 48) Est2) as (B2 & HB2 & Hb2). rewrite HB2. cbn [rbind].
+      destruct (store_rel pre _ _ _ 48 48 X2 Hb1 (trel_const 48 ltac:(lia)) Est2) as (B2 & HB2 & Hb2). rewrite HB2. cbn [rbind].
       replace (i + len pre + 2) with (i + 2 + len pre) by lia. apply (reslice_rel pre _ _ _ _ Hb2 H). }
     destruct (first0 + 3 <=? i) eqn:Ef; [|cbn [rbind] in *; apply Hzz; exact Hr].
     destruct (peekz (af_b s30) (i - 2)) as [c0|] eqn:Ep; [|discriminate]. cbn [rbind] in Hr.
@@ -501,7 +577,8 @@ Proof.
     destruct Hcrel as [Hv|Hmark].
     - (* a written cell: the same test on both sides *)
       assert (Hsame : (c =? 46) = (c0 =? 46)).
-      { destruct Hv as [->|[H1 H2]]; [reflexivity|]. apply is_digit_range in H1. apply is_digit_range in H2. lia. }
+      { destruct Hv as [Hr0 ->]. unfold subst. destruct (2000 <=? c0) eqn:E2; [|reflexivity].
+        pose proof (dig_range M (c0 - 2000)). lia. }
       rewrite Hsame. destruct (c0 =? 46); [|apply Hzz; exact Hr].
       destruct (peekz (af_b s30) (i - 1)) as [c1|] eqn:Ep1; [|discriminate].
       destruct (peek_rel pre _ _ _ _ Hb Ep1) as (c1' & Hc1 & Hc1rel). rewrite Hc1.
@@ -509,7 +586,7 @@ Proof.
       destruct (store X1 (i - 1) 48) as [X2| |] eqn:Est2; try discriminate. cbn [rbind] in Hr.
       destruct Hc1rel as [Hv1|Hmark1].
       + destruct (store_rel pre _ _ _ c1' c1 X1 Hb Hv1 Est) as (B1 & HB1 & Hb1). rewrite HB1. cbn [rbind].
-        destruct (store_rel pre _ _ _ 48 48 X2 Hb1 (vrel_refl 48) Est2) as (B2 & HB2 & Hb2). rewrite HB2. cbn [rbind].
+        destruct (store_rel pre _ _ _ 48 48 X2 Hb1 (trel_const 48 ltac:(lia)) Est2) as (B2 & HB2 & Hb2). rewrite HB2. cbn [rbind].
         apply (reslice_rel pre _ _ _ _ Hb2 Hr).
       + (* the marker would be copied into the result *)
         exfalso. assert (Hp2 : peekz X2 (i - 2) = Some c1).
@@ -526,11 +603,11 @@ Proof.
       rewrite (no_marker_firstz_cell X2 (i + 2) (i - 2) c0 Hp2 ltac:(lia) Hmark) in Hnm. discriminate. }
   (* e<digits> *)
   destruct (store (af_b s30) i 101) as [X1| |] eqn:Est; try discriminate. cbn [rbind] in Hr.
-  destruct (store_rel pre _ _ _ 101 101 X1 Hb (vrel_refl 101) Est) as (B1 & HB1 & Hb1). rewrite HB1. cbn [rbind].
+  destruct (store_rel pre _ _ _ 101 101 X1 Hb (trel_const 101 ltac:(lia)) Est) as (B1 & HB1 & Hb1). rewrite HB1. cbn [rbind].
   destruct (e <? 0).
   - destruct (store X1 (i + 1) 45) as [X2| |] eqn:Est2; try discriminate. cbn [rbind fst snd] in Hr.
     replace (i + len pre + 1) with (i + 1 + len pre) by lia.
-    destruct (store_rel pre _ _ _ 45 45 X2 Hb1 (vrel_refl 45) Est2) as (B2 & HB2 & Hb2). rewrite HB2. cbn [rbind fst snd].
+    destruct (store_rel pre _ _ _ 45 45 X2 Hb1 (trel_const 45 ltac:(lia)) Est2) as (B2 & HB2 & Hb2). rewrite HB2. cbn [rbind fst snd].
     destruct (af_expdigits 20 X2 (i + 1 + 1 + len_int (- e)) (- e)) as [X3| |] eqn:Ee; try discriminate. cbn [rbind] in Hr.
     replace (i + 1 + len pre + 1 + len_int (- e)) with (i + 1 + 1 + len_int (- e) + len pre) by lia.
     destruct (af_expdigits_rel pre 20 _ _ _ _ _ Hb2 Ee) as (B3 & HB3 & Hb3). rewrite HB3. cbn [rbind].
@@ -542,27 +619,28 @@ Proof.
     apply (reslice_rel pre _ _ _ _ Hb3 Hr).
 Qed.
 
-Lemma af_body_rel pre B1 X1 neg m m0 prec mantLen exp out0 :
-  brel pre B1 X1 -> sim 20 true m m0 ->
-  af_body X1 0 neg m0 prec mantLen exp = Ok out0 -> no_marker out0 = true ->
-  exists out, af_body B1 (len pre) neg m prec mantLen exp = Ok (pre ++ out) /\ Forall2 mrel out out0.
+Lemma af_body_rel pre B1 X1 neg m0 prec mantLen exp out0 :
+  brel pre B1 X1 -> sim 20 true M m0 -> 0 <= M ->
+  af_body_g tag_enc X1 0 neg m0 prec mantLen exp = Ok out0 -> no_marker out0 = true ->
+  exists out, af_body_g std_enc B1 (len pre) neg M prec mantLen exp = Ok (pre ++ out) /\ Forall2 mrel out out0.
 Proof.
-  intros Hb Hsim Hr Hnm. unfold af_body in *.
+  intros Hb Hsim HM Hr Hnm. unfold af_body_g in *.
   assert (Hbi : forall bi0, (if neg then b2 <-- store X1 0 45 ;; Ok (b2, 0 + 1) else Ok (X1, 0)) = Ok bi0 ->
             exists bi, (if neg then b2 <-- store B1 (len pre) 45 ;; Ok (b2, len pre + 1) else Ok (B1, len pre)) = Ok bi /\
                        brel pre (fst bi) (fst bi0) /\ snd bi = snd bi0 + len pre).
   { intros bi0 H. destruct neg.
     - destruct (store X1 0 45) as [X2| |] eqn:Est; try discriminate. cbn [rbind] in H. inversion H; subst bi0.
-      destruct (store_rel pre _ _ _ 45 45 X2 Hb (vrel_refl 45) Est) as (B2 & HB2 & Hb2). cbn [Z.add] in HB2. rewrite HB2. cbn [rbind].
+      destruct (store_rel pre _ _ _ 45 45 X2 Hb (trel_const 45 ltac:(lia)) Est) as (B2 & HB2 & Hb2). cbn [Z.add] in HB2. rewrite HB2. cbn [rbind].
       eexists. split; [reflexivity|]. cbn [fst snd]. split; [exact Hb2|lia].
     - inversion H; subst bi0. eexists. split; [reflexivity|]. cbn [fst snd]. split; [exact Hb|lia]. }
   destruct (if neg then _ else _) as [bi0| |] eqn:Ebi in Hr; try discriminate.
   destruct (Hbi bi0 Ebi) as (bi & -> & Hbrel & Hsnd). cbn [rbind] in *. cbv zeta in *.
-  destruct (af_loop 20 _ m0) as [s0| |] eqn:El in Hr; try discriminate. cbn [rbind] in Hr.
+  destruct (af_loop_g tag_enc 20 _ m0) as [s0| |] eqn:El in Hr; try discriminate. cbn [rbind] in Hr.
   destruct (af_loop_rel pre 20 (mkAf (fst bi) (snd bi) (snd bi + mantLen) (snd bi + mantLen) (snd bi + mantLen - prec - exp) exp true)
-              (mkAf (fst bi0) (snd bi0) (snd bi0 + mantLen) (snd bi0 + mantLen) (snd bi0 + mantLen - prec - exp) exp true) m m0 s0)
-    as (s & Hs & Hsrel); [|exact Hsim|exact El|].
+              (mkAf (fst bi0) (snd bi0) (snd bi0 + mantLen) (snd bi0 + mantLen) (snd bi0 + mantLen - prec - exp) exp true) M m0 s0)
+    as (s & Hs & Hsrel); [|exact Hsim|cbn; lia|exact HM| |exact El|].
   { repeat split; cbn [af_b af_i af_j af_last af_dot af_exp af_zero]; try assumption; lia. }
+  { change (20 - Z.of_nat 20) with 0. rewrite Z.pow_0_r, Z.div_1_r. reflexivity. }
   rewrite Hs. cbn [rbind].
   destruct (af_post s0) as [s30| |] eqn:Ep; try discriminate. cbn [rbind] in Hr.
   destruct (af_post_rel pre s s0 s30 Hsrel Ep) as (s3 & -> & Hs3). cbn [rbind].
@@ -584,27 +662,30 @@ Proof.
   repeat match goal with |- context [if ?c then _ else _] => destruct c eqn:? end; lia.
 Qed.
 
-Lemma mrel_no_marker out out0 : Forall2 mrel out out0 -> no_marker out0 = true -> Forall2 vrel out out0.
+Lemma mrel_no_marker out out0 : Forall2 mrel out out0 -> no_marker out0 = true -> out = map (subst M) out0.
 Proof.
-  intros H. induction H as [|x y t t0 Hxy Ht IH]; intros Hn; [constructor|].
+  intros H. induction H as [|x y t t0 Hxy Ht IH]; intros Hn; [reflexivity|].
   unfold no_marker in Hn. cbn [forallb] in Hn. apply andb_true_iff in Hn. destruct Hn as [Hy Hn].
-  constructor; [destruct Hxy as [Hv|Hm]; [exact Hv|lia]|apply IH; exact Hn].
+  cbn [map]. f_equal; [destruct Hxy as [[_ Hv]|Hm]; [exact Hv|lia]|apply IH; exact Hn].
 Qed.
 
-(* the layout of a mantissa follows, digit for digit, that of any mantissa with the same length and the same
-   number of trailing zeros; the destination prefix is preserved, whatever the spare capacity holds *)
-Lemma af_print_rel pre spare neg m m0 prec out0 :
-  len_int m = len_int m0 -> m <> 0 -> m0 <> 0 -> sim 20 true m m0 ->
-  af_print [] markers neg m0 prec = Ok out0 -> no_marker out0 = true ->
-  exists out, af_print pre spare neg m prec = Ok (pre ++ out) /\ Forall2 vrel out out0.
+(* the layout of a mantissa M is that of the tagged run on any mantissa m0 with the same length and the same number
+   of trailing zeros, every tag 2000 + t replaced by the digit of weight 10^t of M; the destination prefix is
+   preserved, whatever the spare capacity holds *)
+Lemma af_print_rel pre spare neg m0 prec out0 :
+  len_int M = len_int m0 -> 0 < M -> m0 <> 0 -> sim 20 true M m0 ->
+  af_print_g tag_enc [] markers neg m0 prec = Ok out0 -> no_marker out0 = true ->
+  af_print pre spare neg M prec = Ok (pre ++ map (subst M) out0).
 Proof.
-  intros HL Hm Hm0 Hsim Hr Hnm. rewrite af_print_unfold in *. rewrite HL.
-  replace (m =? 0) with false by lia. replace (m0 =? 0) with false in Hr by lia.
+  intros HL Hm Hm0 Hsim Hr Hnm. rewrite af_print_std. unfold af_print_g in *. rewrite HL.
+  replace (M =? 0) with false by lia. replace (m0 =? 0) with false in Hr by lia.
   destruct (grow_rel pre spare (af_maxlen neg (len_int m0) prec) (af_maxlen_range neg _ prec (len_int_range m0))) as (X & HX & HX0 & HXrel).
   rewrite HX. rewrite HX0 in Hr. cbn [rbind] in *. change (len (@nil Z)) with 0 in Hr.
-  destruct (af_body_rel pre (pre ++ X) _ neg m m0 prec _ _ out0 ltac:(exists X; split; [reflexivity|exact HXrel]) Hsim Hr Hnm) as (out & Hout & Hrel).
-  exists out. split; [exact Hout|]. apply mrel_no_marker; assumption.
+  destruct (af_body_rel pre (pre ++ X) _ neg m0 prec _ _ out0 ltac:(exists X; split; [reflexivity|exact HXrel]) Hsim ltac:(lia) Hr Hnm) as (out & Hout & Hrel).
+  rewrite Hout. f_equal. f_equal. apply mrel_no_marker; assumption.
 Qed.
+
+End Lockstep.
 
 (* ---- every mantissa is similar to a canonical one ---------------------------------------------------------------- *)
 
@@ -637,10 +718,6 @@ Proof.
     split; [apply Z.div_le_lower_bound; lia|apply Z.div_lt_upper_bound; lia].
 Qed.
 
-Lemma quot_div_nonneg m : 0 <= m -> Z.quot m 10 = m / 10 /\ m - 10 * Z.quot m 10 = m mod 10.
-Proof.
-  intros H. rewrite Z.quot_div_nonneg by lia. split; [reflexivity|]. pose proof (Z.div_mod m 10 ltac:(lia)). lia.
-Qed.
 
 Lemma ndig_nonneg k m : ndig k m -> 0 <= m /\ 0 <= k.
 Proof. intros [[-> ->]|[Hk Hm]]; [lia|]. assert (0 < 10 ^ (k - 1)) by (apply Z.pow_pos_nonneg; lia). lia. Qed.
@@ -821,48 +898,80 @@ Proof.
     destruct (lit_body_sound (c :: t) Hb) as (ip & fp & ex & -> & H1 & H2 & H3 & H4). exists ip, fp, ex. split; [reflexivity|]. tauto.
 Qed.
 
-Lemma vrel_const x y : vrel x y -> is_digit y = false -> x = y.
-Proof. intros [H|[_ H]] Hy; [exact H|congruence]. Qed.
+(* ---- the value a literal denotes, and the finite check on the tagged runs ---------------------------------------- *)
 
-Lemma vrel_digits out ds0 : Forall2 vrel out ds0 -> all_digits ds0 -> all_digits out.
-Proof.
-  intros H. induction H as [|x y t t0 Hxy Ht IH]; intros Ha; [constructor|]. inversion Ha; subst.
-  constructor; [destruct Hxy as [->|[Hx _]]; assumption|apply IH; assumption].
-Qed.
+(* e<digits> | e-<digits> | nothing *)
+Definition exp_value (ex : list Z) : Z :=
+  match ex with
+  | 101 :: 45 :: ds => - dec_value ds
+  | 101 :: ds => dec_value ds
+  | _ => 0
+  end.
 
-Lemma vrel_consts out l0 : Forall2 vrel out l0 -> Forall (fun y => is_digit y = false) l0 -> out = l0.
-Proof.
-  intros H. induction H as [|x y t t0 Hxy Ht IH]; intros Ha; [reflexivity|]. inversion Ha; subst.
-  f_equal; [apply vrel_const; assumption|apply IH; assumption].
-Qed.
+(* the unsigned body  digits[.digits][exp]  denotes  fst * 10 ^ snd *)
+Definition lit_mant_exp (l : list Z) : Z * Z :=
+  let ip := take_digits l in
+  match drop_digits l with
+  | c :: t => if c =? 46 then (dec_value (ip ++ take_digits t), exp_value (drop_digits t) - len (take_digits t))
+              else (dec_value ip, exp_value (c :: t))
+  | [] => (dec_value ip, 0)
+  end.
+Definition lit_neg (out : list Z) : bool := match out with c :: _ => c =? 45 | [] => false end.
+Definition lit_body (out : list Z) : list Z := if lit_neg out then tl out else out.
 
-Lemma float_literal_vrel neg out out0 : Forall2 vrel out out0 -> float_literal neg out0 -> float_literal neg out.
-Proof.
-  intros H (ip0 & fp0 & ex0 & -> & Hip & Hfp & Hne & Hex).
-  apply Forall2_app_inv_r in H. destruct H as (s & r1 & Hs & H & ->).
-  apply Forall2_app_inv_r in H. destruct H as (ip & r2 & Hipr & H & ->).
-  apply Forall2_app_inv_r in H. destruct H as (dp & ex & Hdp & Hexr & ->).
-  assert (Hs' : s = if neg then [45] else []).
-  { apply vrel_consts; [exact Hs|]. destruct neg; repeat constructor. }
-  assert (Hnil : forall (a b : list Z), Forall2 vrel a b -> (a = [] <-> b = [])).
-  { intros a b Hab. destruct Hab; split; intros; try reflexivity; discriminate. }
-  (* the dot and the fraction *)
-  assert (Hdot : exists fp, dp = (match fp with [] => [] | _ => 46 :: fp end) /\ all_digits fp /\ (fp = [] <-> fp0 = [])).
-  { destruct fp0 as [|f0 fp0'].
-    - inversion Hdp; subst. exists []. split; [reflexivity|]. split; [constructor|tauto].
-    - inversion Hdp as [|x y t t0 Hxy Ht]; subst. assert (x = 46) by (apply vrel_const; [exact Hxy|reflexivity]). subst x.
-      exists t. pose proof (vrel_digits _ _ Ht Hfp) as Hd. split; [|split; [exact Hd|]].
-      + destruct t; [inversion Ht|reflexivity].
-      + apply (Hnil _ _ Ht). }
-  destruct Hdot as (fp & -> & Hfpd & Hfpnil).
-  exists ip, fp, ex. split; [rewrite Hs'; reflexivity|]. split; [apply (vrel_digits _ _ Hipr Hip)|]. split; [exact Hfpd|].
-  split.
-  - destruct Hne as [H|H]; [left; intros E; apply H; apply (Hnil _ _ Hipr); exact E|right; intros E; apply H; apply Hfpnil; exact E].
-  - destruct Hex as [->|(ds0 & Hds & Hdne & [-> | ->])].
-    + left. inversion Hexr. reflexivity.
-    + right. inversion Hexr as [|x y t t0 Hxy Ht]; subst. assert (x = 101) by (apply vrel_const; [exact Hxy|reflexivity]). subst x.
-      exists t. split; [apply (vrel_digits _ _ Ht Hds)|]. split; [intros E; apply Hdne; apply (Hnil _ _ Ht); exact E|left; reflexivity].
-    + right. inversion Hexr as [|x y t t0 Hxy Ht]; subst. assert (x = 101) by (apply vrel_const; [exact Hxy|reflexivity]). subst x.
-      inversion Ht as [|x2 y2 t2 t02 Hxy2 Ht2]; subst. assert (x2 = 45) by (apply vrel_const; [exact Hxy2|reflexivity]). subst x2.
-      exists t2. split; [apply (vrel_digits _ _ Ht2 Hds)|]. split; [intros E; apply Hdne; apply (Hnil _ _ Ht2); exact E|right; reflexivity].
-Qed.
+(* the expected form of a tagged result: [-] cells with a dot after the first p of them, then the exponent, where
+   the cells are a zeros, the tags of the digits L-1 .. L-k in this order, b zeros *)
+Fixpoint tagseq (hi : Z) (k : nat) : list Z :=
+  match k with O => [] | S k' => (2000 + hi) :: tagseq (hi - 1) k' end.
+Definition tag_cells (L : Z) (a k b : nat) : list Z := repeat 48 a ++ tagseq (L - 1) k ++ repeat 48 b.
+Definition rebuild (neg : bool) (L : Z) (a k b p : nat) (hasdot : bool) (ex : list Z) : list Z :=
+  let cs := tag_cells L a k b in
+  (if neg then [45] else []) ++ firstn p cs ++ (if hasdot then 46 :: skipn p cs else []) ++ ex.
+
+(* the conditions under which every instance of that form denotes mant * 10^-prec: the dropped digits L-k-1 .. 0
+   are zeros of the mantissa, and the weight of the last tag is right *)
+Definition tag_side (L z prec : Z) (a k b p : nat) (hasdot : bool) (ex : list Z) : bool :=
+  let n := Z.of_nat (a + k + b) in
+  lit_exp_b ex && forallb (fun c => c <? 1000) ex &&
+  (1 <=? Z.of_nat k) && (0 <=? L - Z.of_nat k) && (L - Z.of_nat k <=? z) &&
+  (if hasdot then Z.of_nat p <? n else Z.of_nat p =? n) &&
+  (exp_value ex - (n - Z.of_nat p) + Z.of_nat b =? L - Z.of_nat k - prec).
+
+Fixpoint take_p (p : Z -> bool) (l : list Z) : list Z :=
+  match l with c :: t => if p c then c :: take_p p t else [] | [] => [] end.
+Fixpoint drop_p (p : Z -> bool) (l : list Z) : list Z :=
+  match l with c :: t => if p c then drop_p p t else l | [] => [] end.
+Fixpoint zlist_eqb (a b : list Z) : bool :=
+  match a, b with
+  | [], [] => true
+  | x :: a', y :: b' => (x =? y) && zlist_eqb a' b'
+  | _, _ => false
+  end.
+
+(* read the parameters off the tagged result (no property of this reading is used), rebuild, compare *)
+Definition tag_check (neg : bool) (L z prec : Z) (out0 : list Z) : bool :=
+  let isd := fun c => is_digit c || (2000 <=? c) in
+  let body := match out0 with c :: t => if c =? 45 then t else out0 | [] => out0 end in
+  let ipc := take_p isd body in
+  let r1 := drop_p isd body in
+  let hasdot := match r1 with c :: _ => c =? 46 | [] => false end in
+  let fpc := if hasdot then take_p isd (tl r1) else [] in
+  let ex := if hasdot then drop_p isd (tl r1) else r1 in
+  let cs := ipc ++ fpc in
+  let a := length (take_p (Z.eqb 48) cs) in
+  let r2 := drop_p (Z.eqb 48) cs in
+  let k := length (take_p (Z.leb 2000) r2) in
+  let b := length (drop_p (Z.leb 2000) r2) in
+  let p := length ipc in
+  zlist_eqb out0 (rebuild neg L a k b p hasdot ex) && tag_side L z prec a k b p hasdot ex.
+
+Definition af_check_one (neg : bool) (L z prec : Z) : bool :=
+  match af_print_g tag_enc [] markers neg (canon_mant L z) prec with
+  | Ok out0 => no_marker out0 && tag_check neg L z prec out0
+  | _ => false
+  end.
+
+(* the finite check, per range of mantissa lengths (split over AFCheck1..4.v so that they compile in parallel) *)
+Definition af_check_range (Llo Lhi : Z) : bool :=
+  forallb (fun L => forallb (fun z => forallb (fun prec =>
+     af_check_one false L z prec && af_check_one true L z prec) (zrange (-350) 350)) (zrange 0 (L - 1))) (zrange Llo Lhi).
